@@ -201,6 +201,10 @@ func genWLs(t *rapid.T, hp *HistoryParams, topo Topo) ([]WL, []PoolObj) {
 		}
 		wl.Name = fmt.Sprintf("%s%d", map[string]string{"sts": "s", "dp": "d", "cr": "c", "nscr": "x", "bare": "b"}[wl.Kind], i)
 		wl.NoObject = wl.Kind != "bare" && rapid.IntRange(0, 9).Draw(t, "noObject") == 0
+		if (wl.Kind == "sts" || wl.Kind == "cr" || wl.Kind == "nscr") && rapid.IntRange(0, 3).Draw(t, "wide") == 0 {
+			wl.Wide = true
+			wl.Replicas = rapid.SampledFrom([]int{1, 2, 11, 12, 12}).Draw(t, "wideReplicas")
+		}
 		if hp.Ranges && rapid.IntRange(0, 3).Draw(t, "withRanges") == 0 {
 			wl.Ranges = genRanges(t, topo, rapid.IntRange(1, 3).Draw(t, "k"))
 		}
@@ -535,7 +539,7 @@ func GenHistory(t *rapid.T, hp *HistoryParams) Case {
 	if hp.FaultPct > 0 && rapid.IntRange(0, 99).Draw(t, "faulty") < hp.FaultPct && len(c.Ops) > 0 {
 		c.FaultAt = &FaultAt{Op: rapid.IntRange(0, len(c.Ops)-1).Draw(t, "faultOp"), Fault: Fault{
 			K: rapid.IntRange(1, 8).Draw(t, "faultK"), Mode: "error",
-			Err: rapid.SampledFrom([]string{"internal", "conflict", "timeout"}).Draw(t, "faultErr")}} // NotFound for an object that exists would be a lie of the API server, not a failure
+			Err: rapid.SampledFrom([]string{"internal", "conflict", "timeout", "exists"}).Draw(t, "faultErr")}} // NotFound for an object that exists would be a lie of the API server, not a failure
 	}
 	if hp.CrFail {
 		for i, n := 0, rapid.IntRange(0, 2).Draw(t, "nCrFail"); i < n; i++ {
